@@ -7,6 +7,7 @@ CONSTANTS
   FirstCap = 0
   Roots = {1, 2}
   Dev = "none"
+  Tolerant = FALSE
   Families = {"slow", "free"}
   MaxLen = 3
 INVARIANTS Emit
